@@ -44,7 +44,7 @@ type c01Variant struct {
 }
 
 func c01Variants(stats *svc.AlgoStats) []c01Variant {
-	d, c := svc.Algo("zz-xor", stats)
+	d, c := svc.Algo("Zz-Xor", stats)
 	return []c01Variant{
 		{name: "gzip-resp-only-min0"},
 		{name: "identity", hopts: []connect.HandlerOption{connect.WithCompressMinBytes(1 << 30)}, copts: []connect.ClientOption{connect.WithCompressMinBytes(1 << 30)}},
@@ -52,8 +52,8 @@ func c01Variants(stats *svc.AlgoStats) []c01Variant {
 		{name: "gzip-both-min512", hopts: []connect.HandlerOption{connect.WithCompressMinBytes(512)}, copts: []connect.ClientOption{connect.WithSendGzip(), connect.WithCompressMinBytes(512)}, compressed: true},
 		{name: "custom-codec-gzip", hopts: []connect.HandlerOption{connect.WithCodec(prefixCodec{})}, copts: []connect.ClientOption{connect.WithCodec(prefixCodec{}), connect.WithSendGzip()}, compressed: true, customCodec: true},
 		{name: "zzxor-both-min1",
-			hopts:      []connect.HandlerOption{connect.WithCompression("zz-xor", d, c), connect.WithCompressMinBytes(1)},
-			copts:      []connect.ClientOption{connect.WithAcceptCompression("zz-xor", d, c), connect.WithSendCompression("zz-xor"), connect.WithCompressMinBytes(1)},
+			hopts:      []connect.HandlerOption{connect.WithCompression("Zz-Xor", d, c), connect.WithCompressMinBytes(1)},
+			copts:      []connect.ClientOption{connect.WithAcceptCompression("Zz-Xor", d, c), connect.WithSendCompression("Zz-Xor"), connect.WithCompressMinBytes(1)},
 			compressed: true},
 	}
 }
